@@ -17,7 +17,7 @@ func init() {
 			"cipher entries, replay history, association table and associations, shared listeners and their handles, the listener manager and the metrics collectors is classified as " +
 			"(i) immutable after construction (no store on an existing object), (ii) guarded (the intersection of must-hold lock sets over all accesses contains one lock class, exclusively held for writes), " +
 			"(iii) confined to one goroutine kind that also creates the object, (iv) a sync primitive, or (v) write-once before the go statement that publishes it; a field in none of the classes is a violation " +
-			"(GUARDED). (ATOMIC) every function that takes one of the guarding locks takes it exactly once, so check-then-act sequences stay inside one critical section.",
+			"(GUARDED; every struct type of the module that carries a mutex is included, found by shape). (ATOMIC) every function that takes one of the guarding locks takes it exactly once, so check-then-act sequences stay inside one critical section. (LOOPVAR) no goroutine started inside a loop captures by reference a variable that lives outside the loop and is assigned in it.",
 		NotDecided: "linearizability of results (only the single-critical-section shape is checked); races inside Prometheus / the SDK (own locks, trusted); per-connection objects that are not shared.",
 		Trusted:    []string{"Go memory model: mutex release/acquire, go statement and channel happens-before"},
 	})
